@@ -1,17 +1,24 @@
 """C45 -- exported library metadata matches the declarations.
-Engine H + G: Gallina function `symbols : variant -> glossary -> decl -> table` (coq/C45Model.v) with theorems (names rule,
-glossary-inheritance rule of checkAndCompletePhysicalBoundsDeclaration, bounds round-trip, array sizes, hypotheses);
-tie = random declarations (material properties and Default-DSL behaviours) printed to .mfront, run through the mfront
-built from the working tree (generic interfaces), the generated sources compiled into shared libraries, every piece of
-metadata read back through the REAL tfel::system::ExternalLibraryManager (compiled from REPO sources into driver.cxx,
-which dlopens the libraries) and through mfront-query, compared with an independent Python statement of the property and
-with `symbols` evaluated by Coq (vm_compute) on the same declaration and the glossary dumped from the real code."""
-import os, re, sys
-from decimal import Decimal
+Engine H + G: Gallina functions `symbols / symbols_at : variant -> glossary -> decl -> (hyp ->) table`, `accepts`, `set_param / load_file /
+view` (coq/C45Model.v) with theorems (names rule, glossary-inheritance rule of checkAndCompletePhysicalBoundsDeclaration, bounds round-trip,
+per-element bounds, hypothesis-specialised declarations, what the Implicit DSL and the StandardElasticity brick declare, setParameter /
+parameters file = recompiling with those defaults, accepted declarations are exported faithfully);
+tie = archetypes + random declarations (material properties; Default-DSL and Implicit-DSL behaviours) printed to .mfront, run through the
+mfront built from the working tree (generic interfaces), the generated sources compiled into shared libraries, every piece of metadata read
+back through the REAL tfel::system::ExternalLibraryManager (compiled from REPO sources into driver.cxx, which dlopens the libraries) and
+through mfront-query; parameters set through ExternalLibraryManager::setParameter / parameter files and the generated code CALLED, compared
+bit for bit with the library recompiled with those defaults; declarations mfront must refuse run through mfront; everything compared with
+an independent Python statement and with the Gallina functions evaluated by Coq (vm_compute) on the same declaration and the glossary
+dumped from the real code."""
+import os, re, sys, copy, threading
 from concurrent.futures import ThreadPoolExecutor
 from vlib import guarded_main, REPO_BUILD, repo_lib_dirs
+sys.path.insert(0, os.path.dirname(os.path.abspath(__file__)))
 sys.path.insert(0, os.path.join(os.path.dirname(os.path.abspath(__file__)), "..", "C38"))
 from mplib import MFrontSemaphore, mfront_exe, mfront_bounds
+from c45decl import (HYPS, HYP_COQ, V, mfront_text, expected, expanded, elaborate, visible, ext_name, accepts_py, cdecl, cgloss, cvariant,
+                     cdec, cstr, collapse)
+from c45gen import archetypes, implicit_archetypes, probes, gen_decl, invalid_cases
 
 SRC = ["src/System/ExternalLibraryManager.cxx", "src/System/LibraryInformation.cxx", "src/System/getFunction.c",
        "src/Glossary/Glossary.cxx", "src/Glossary/GlossaryEntry.cxx", "src/Utilities/StringAlgorithms.cxx"]
@@ -19,16 +26,9 @@ K_D1 = "mp-input:physical-bounds-not-exported-without-bounds"
 K_D2 = "array-variable:bounds-symbols-unreadable"
 K_D3 = "state-variable:glossary-physical-bounds-not-exported"
 K_D4 = "mfront-query:material-property-bounds-queries-answer-physical-bounds"
-VALUES = ["-273.15", "-1", "-0.5", "0", "0.000123456789", "0.25", "0.5", "1", "1.23456789", "1.5", "2.5", "100", "293.15", "1234567.5"]
-HYPS = ["AxisymmetricalGeneralisedPlaneStrain", "AxisymmetricalGeneralisedPlaneStress", "Axisymmetrical", "PlaneStress", "PlaneStrain",
-        "GeneralisedPlaneStrain", "Tridimensional"]
-HYP_COQ = dict(zip(HYPS, ["AGPStrain", "AGPStress", "Axisymmetrical", "PlaneStress", "PlaneStrain", "GeneralisedPlaneStrain", "Tridimensional"]))
-USABLE_HYPS = ["AxisymmetricalGeneralisedPlaneStrain", "Axisymmetrical", "PlaneStrain", "GeneralisedPlaneStrain", "Tridimensional"]
-TYPES = {"real": 0, "Stensor": 1, "TVector": 2, "Tensor": 3}
-TYCOQ = {0: "TScalar", 1: "TStensor", 2: "TVector", 3: "TTensor"}
-BUILTIN = [dict(name="minimal_time_step_scaling_factor", gloss=None, entry=None, ty="real", size=1, bounds=None, phys=None, default=["0.1"]),
-           dict(name="maximal_time_step_scaling_factor", gloss=None, entry=None, ty="real", size=1, bounds=None, phys=None, default=["17976931348623e295"])]
-TEMPERATURE = dict(name="T", gloss="Temperature", entry=None, ty="real", size=1, bounds=None, phys=None, default=[])
+K_E1 = "per-element-bounds:index-equal-to-array-size-accepted"
+K_E2 = "material-property:external-name-equal-to-another-variable-name-accepted"
+JOBS = max(1, int(os.environ.get("VERIF_JOBS", "4")))
 
 
 def unhx(h):
@@ -45,200 +45,9 @@ def parse_glossary(out):
     return g
 
 
-# ----------------------------------------------------------------------------- declarations (AST)
-def eff_phys(G, unit, v):
-    """independent statement of the inheritance rule: declared physical bounds win; otherwise, with a unit system and a
-    glossary name, the bounds the glossary entry has for that unit system (lower only / upper only / both)"""
-    if v["phys"]:
-        return v["phys"]
-    if unit is None or v["gloss"] is None:
-        return None
-    for e in G:
-        if e["key"] == v["gloss"] and e["sys"] == unit:
-            if e["low"] is not None and e["up"] is not None:
-                return ("B", e["low"], e["up"])
-            if e["low"] is not None:
-                return ("L", e["low"], "0")
-            if e["up"] is not None:
-                return ("U", "0", e["up"])
-            return None
-    return None
-
-
-def inside(vals, ph):
-    if ph is None:
-        return vals
-    return [x for x in vals if (ph[0] == "U" or float(x) >= float(ph[1])) and (ph[0] == "L" or float(x) <= float(ph[2]))]
-
-
-def pick_bounds(rng, ph, kinds="LUB"):
-    """bounds contained in the (effective) physical bounds ph, with at least the sides ph has (mfront refuses otherwise)"""
-    vals = inside(VALUES, ph)
-    if len(vals) < 2:
-        return None
-    a, b = sorted(rng.sample(vals, 2), key=float)
-    ok = {"L": "LB", "U": "UB", "B": "B"}[ph[0]] if ph else kinds
-    k = rng.choice(ok)
-    if ph and ph[0] == "U" and float(a) <= 0:
-        k = "U"   # front-end quirk: an unset physical lower bound is numeric_limits<long double>::min() (see props/C38)
-    return (k, a, b)
-
-
-def rand_var(rng, G, unit, name, used, gloss_pool, ty="real", size=1, allow_bounds=True, default=False):
-    v = dict(name=name, gloss=None, entry=None, ty=ty, size=size, bounds=None, phys=None, default=[])
-    r = rng.random()
-    if ty == "real" and r < 0.45 and gloss_pool:
-        k = rng.choice(gloss_pool)
-        if k not in used:
-            v["gloss"] = k
-            used.add(k)
-    elif r < 0.75:
-        v["entry"] = "E%s" % name
-    if allow_bounds and ty == "real":
-        r = rng.random()
-        if r < 0.35:
-            v["phys"] = pick_bounds(rng, None)
-            if v["phys"] and v["phys"][0] == "L":
-                v["phys"] = ("L", v["phys"][1], "0")
-            if v["phys"] and v["phys"][0] == "U":
-                v["phys"] = ("U", "0", v["phys"][2])
-        if rng.random() < 0.55:
-            v["bounds"] = pick_bounds(rng, eff_phys(G, unit, v))
-    if default:
-        v["default"] = [rng.choice(VALUES) for _ in range(size)]
-    return v
-
-
-def archetypes(G):
-    two = [e["key"] for e in G if e["sys"] == "SI" and e["low"] is not None and e["up"] is not None and e["type"] == "scalar"]
-    low = [e["key"] for e in G if e["sys"] == "SI" and e["low"] is not None and e["up"] is None and e["type"] == "scalar" and e["key"] != "Temperature"]
-    t0, t1 = (two + [None, None])[:2]
-    l0 = (low + [None])[0]
-    V = lambda name, **kw: dict(dict(name=name, gloss=None, entry=None, ty="real", size=1, bounds=None, phys=None, default=[]), **kw)
-    a = []
-    # material property: inputs attached to two-sided / lower-only glossary entries, with and without @Bounds, declared physical
-    # bounds without @Bounds (finding D1), entry names, a parameter
-    a.append(dict(kind="MP", unit="SI", output=V("y", gloss=l0),
-                  inputs=[V("T", gloss="Temperature"), V("f", gloss=t0), V("g", gloss=t1, bounds=("B", "0", "0.25")), V("x", entry="MyX", phys=("L", "0", "0")),
-                          V("z", bounds=("B", "0", "1"), phys=("B", "-1", "2.5")), V("w", bounds=("U", "0", "100"))],
-                  params=[V("a", entry="AA", default=["2.5"]), V("b", default=["1.23456789"])], mps=[], svs=[], asvs=[], esvs=[], hyps=[]))
-    # the same declarations without a unit system: nothing is inherited
-    a.append(dict(a[0], unit=None, inputs=[dict(v) for v in a[0]["inputs"]]))
-    # behaviour: two-sided entries on a material property, a state variable (finding D3), a parameter; arrays with bounds (finding D2)
-    a.append(dict(kind="B", unit="SI", output=None, inputs=[], hyps=["Tridimensional", "PlaneStrain"],
-                  mps=[V("young", gloss=l0), V("nu", gloss=t1), V("mpa", entry="MyArr", size=3, bounds=("B", "0", "100"))],
-                  svs=[V("f", gloss=t0), V("eel2", entry="MyStrain", ty="Stensor"), V("sa", size=2, phys=("L", "0", "0"))],
-                  asvs=[V("aux", bounds=("U", "0", "2.5")), V("w", ty="Tensor")],
-                  esvs=[V("flu", entry="Fluence", bounds=("B", "1.5", "100"))],
-                  params=[V("p1", entry="PP1", bounds=("B", "0", "2.5"), default=["1.23456789"]), V("pa", size=2, default=["1.5", "2.5"])]))
-    a.append(dict(a[2], unit=None, hyps=["GeneralisedPlaneStrain", "Axisymmetrical", "Tridimensional"]))
-    return a
-
-
-def gen_decl(rng, G, idx):
-    unit = rng.choice(["SI", "SI", "SI", None])
-    scal = sorted({e["key"] for e in G if e["type"] == "scalar"})
-    with_b = sorted({e["key"] for e in G if e["type"] == "scalar" and (e["low"] is not None or e["up"] is not None)})
-    pool = [k for k in (with_b * 3 + rng.sample(scal, min(len(scal), 12)))]
-    used = set()
-    if idx % 2 == 0:
-        ni = rng.choice([1, 2, 3, 4])
-        d = dict(kind="MP", unit=unit, output=rand_var(rng, G, unit, "y", used, pool, allow_bounds=False),
-                 inputs=[rand_var(rng, G, unit, "x%d" % j, used, pool) for j in range(ni)],
-                 params=[rand_var(rng, G, unit, "p%d" % j, used, pool, allow_bounds=False, default=True) for j in range(rng.choice([0, 1, 2]))],
-                 mps=[], svs=[], asvs=[], esvs=[], hyps=[])
-        return d
-    pool = [k for k in pool if k != "Temperature"]
-    used.add("Temperature")
-
-    def some(prefix, n, types=("real",), arrays=True, default=False):
-        out = []
-        for j in range(n):
-            ty = rng.choice(types)
-            size = rng.choice([1, 1, 1, 2, 3]) if arrays and ty == "real" else 1
-            out.append(rand_var(rng, G, unit, "%s%d" % (prefix, j), used, pool, ty=ty, size=size, default=default))
-        return out
-    hyps = rng.sample(USABLE_HYPS, rng.choice([1, 2, 3, 5]))
-    return dict(kind="B", unit=unit, output=None, inputs=[], hyps=hyps,
-                mps=some("m", rng.choice([0, 1, 2, 3])),
-                svs=some("s", rng.choice([0, 1, 2, 3]), types=("real", "real", "Stensor", "Tensor", "TVector")),
-                asvs=some("a", rng.choice([0, 1, 2]), types=("real", "real", "Stensor")),
-                esvs=some("e", rng.choice([0, 1, 2])),
-                params=some("p", rng.choice([0, 1, 2, 3]), default=True))
-
-
-def var_text(kw, v):
-    t = "%s %s %s%s" % (kw, v["ty"], v["name"], "[%d]" % v["size"] if v["size"] > 1 else "")
-    if v["default"]:
-        t += " = " + (v["default"][0] if v["size"] == 1 else "{" + ", ".join(v["default"]) + "}")
-    t += ";\n"
-    if v["gloss"]:
-        t += '%s.setGlossaryName("%s");\n' % (v["name"], v["gloss"])
-    if v["entry"]:
-        t += '%s.setEntryName("%s");\n' % (v["name"], v["entry"])
-    if v["phys"]:
-        t += "@PhysicalBounds %s in %s;\n" % (v["name"], mfront_bounds(v["phys"]))
-    if v["bounds"]:
-        t += "@Bounds %s in %s;\n" % (v["name"], mfront_bounds(v["bounds"]))
-    return t
-
-
-def mfront_text(d):
-    if d["kind"] == "MP":
-        t = "@DSL MaterialProperty;\n@Law %s;\n" % d["name"]
-        if d["unit"]:
-            t += "@UnitSystem %s;\n" % d["unit"]
-        t += var_text("@Output", d["output"])
-        for v in d["inputs"]:
-            t += var_text("@Input", v)
-        for v in d["params"]:
-            t += var_text("@Parameter", v)
-        t += "@Function{\n  %s = %s;\n}\n" % (d["output"]["name"], " + ".join([v["name"] for v in d["inputs"] + d["params"]] + ["1"]))
-        return t
-    t = "@DSL Default;\n@Behaviour %s;\n" % d["name"]
-    if d["unit"]:
-        t += "@UnitSystem %s;\n" % d["unit"]
-    t += "@ModellingHypotheses {%s};\n" % ", ".join(d["hyps"])
-    for kw, l in (("@MaterialProperty", d["mps"]), ("@StateVariable", d["svs"]), ("@AuxiliaryStateVariable", d["asvs"]),
-                  ("@ExternalStateVariable", d["esvs"]), ("@Parameter", d["params"])):
-        for v in l:
-            t += var_text(kw, v)
-    t += "@Integrator{\n  static_cast<void>(smt);\n}\n"
-    return t
-
-
-# ----------------------------------------------------------------------------- independent statement: expected metadata
-def fb(b):
-    if b is None:
-        return None
-    return {"L": ("L", float(b[1])), "U": ("U", float(b[2])), "B": ("B", float(b[1]), float(b[2]))}[b[0]]
-
-
-def ext_name(v):
-    return v["gloss"] or v["entry"] or v["name"]
-
-
-def expect_var(G, unit, v):
-    return dict(ext=ext_name(v), code=TYPES[v["ty"]], size=v["size"], bounds=fb(v["bounds"]), phys=fb(eff_phys(G, unit, v)),
-                default=[float(x) for x in v["default"]])
-
-
-def expected(G, d):
-    E = lambda l: [expect_var(G, d["unit"], v) for v in l]
-    if d["kind"] == "MP":
-        return dict(kind=0, unit=d["unit"] or "", output=ext_name(d["output"]), args=E(d["inputs"]), hyps=[], mps=[], isvs=[], esvs=[], temperature=None,
-                    params=E(d["params"]))
-    return dict(kind=1, unit=d["unit"] or "", output="", args=[], hyps=[h for h in HYPS if h in d["hyps"]], mps=E(d["mps"]),
-                isvs=E(d["svs"] + d["asvs"]), esvs=E(d["esvs"]), temperature=expect_var(G, d["unit"], TEMPERATURE), params=E(d["params"] + BUILTIN))
-
-
-def expanded(l):
-    return [m["ext"] if m["size"] == 1 else "%s[%d]" % (m["ext"], i) for m in l for i in range(m["size"])]
-
-
 # ----------------------------------------------------------------------------- queries through ExternalLibraryManager
-def queries(d, exp):
-    """(id, line) list; ids are (what, ...) tuples rendered as strings"""
+def queries(d):
+    """(tag, line) list for the metadata of one library; d["exp"] = {hypothesis or None: expected table}"""
     q = []
     L, f = d["lib"], d["name"]
 
@@ -248,6 +57,7 @@ def queries(d, exp):
     add("mkt", "MKT")
     add("unit", "UNIT")
     if d["kind"] == "MP":
+        exp = d["exp"][None]
         add("out", "MPOUT")
         add("vars", "MPVARS")
         add("params", "MPPARAMS")
@@ -259,7 +69,7 @@ def queries(d, exp):
             add("def:" + m["ext"], "DEF", "-", m["ext"])
         return q
     add("hyps", "HYPS")
-    for h in exp["hyps"]:
+    for h, exp in d["exp"].items():
         for what in ("MaterialProperties", "InternalStateVariables", "ExternalStateVariables", "Parameters"):
             add("names:%s:%s" % (h, what), "NAMES", h, what)
             if what != "MaterialProperties":
@@ -268,8 +78,9 @@ def queries(d, exp):
             for n in expanded(exp[cont]):
                 add("b:%s:%s:%s" % (h, cont, n), "BB", h, n)
         add("b:%s:temperature:Temperature" % h, "BB", h, "Temperature")
-        for n in expanded(exp["params"]):
-            add("def:%s:%s" % (h, n), "DEF", h, n)
+        for m in exp["params"]:
+            for n in expanded([m]):
+                add("def:%s:%s" % (h, n), {0: "DEF", 1: "DEFI", 2: "DEFU"}[m["code"]], h, n)
     return q
 
 
@@ -320,8 +131,8 @@ def group(names, types, bget, dget):
     return out
 
 
-def observe(d, exp, ans):
-    """answers (tag -> token list | ('THROW', msg)) -> list of observed tables (one per hypothesis for behaviours)"""
+def observe(d, ans):
+    """answers (tag -> token list | ('THROW', msg)) -> {hypothesis or None: observed table}"""
     def A(tag):
         a = ans.get(tag)
         if a is None or (a and a[0] == "THROW"):
@@ -352,10 +163,10 @@ def observe(d, exp, ans):
         pt = [int(x) for x in A("ptypes")[1:]] if pn else []
         o = dict(base, output=unhx(A("out")[0]), nargs=int(vs[0]), args=group(names, None, bget("b:args:"), None), hyps=[], mps=[], isvs=[], esvs=[],
                  temperature=None, params=group(pn, pt, bget("b:params:"), dget("def:")), hyp=None)
-        return [o]
-    outs = []
+        return {None: o}
+    outs = {}
     hyps = strs(A("hyps"))
-    for h in exp["hyps"]:
+    for h in d["exp"]:
         def cont(key, what, typed=True, defaults=False):
             names = strs(A("names:%s:%s" % (h, what)))
             types = [int(x) for x in A("types:%s:%s" % (h, what))[1:]] if typed else None
@@ -363,9 +174,9 @@ def observe(d, exp, ans):
                 types = (types + [-1] * len(names))[:len(names)]
             return group(names, types, bget("b:%s:%s:" % (h, key)), dget("def:%s:" % h) if defaults else None)
         tb = bget("b:%s:temperature:" % h)("Temperature")
-        outs.append(dict(base, output="", args=[], hyps=hyps, mps=cont("mps", "MaterialProperties", typed=False), isvs=cont("isvs", "InternalStateVariables"),
-                         esvs=cont("esvs", "ExternalStateVariables"), params=cont("params", "Parameters", defaults=True), hyp=h,
-                         temperature=dict(ext="Temperature", code=0, size=1, bounds=tb[0], phys=tb[1], default=[], consistent=tb[2])))
+        outs[h] = dict(base, output="", args=[], hyps=hyps, mps=cont("mps", "MaterialProperties", typed=False), isvs=cont("isvs", "InternalStateVariables"),
+                       esvs=cont("esvs", "ExternalStateVariables"), params=cont("params", "Parameters", defaults=True), hyp=h,
+                       temperature=dict(ext="Temperature", code=0, size=1, bounds=tb[0], phys=tb[1], default=[], consistent=tb[2]))
     return outs
 
 
@@ -392,12 +203,12 @@ def diff(exp, obs):
     return out
 
 
-def classify(d, dvars, m):
+def classify(d, exp, m):
     """which known finding does a mismatch of the independent statement exhibit (None = none)"""
     name, i, fld, e, o = m
     if i < 0 or name == "temperature":
         return None
-    v = dvars[name][i]
+    v = exp[name][i]["var"]
     if v["size"] > 1 and fld in ("bounds", "phys") and o is None:
         return K_D2
     if d["kind"] == "MP" and name == "args" and fld == "phys" and o is None and v["bounds"] is None:
@@ -407,45 +218,10 @@ def classify(d, dvars, m):
     return None
 
 
-# ----------------------------------------------------------------------------- Gallina terms and the model's answer
-def cstr(s):
-    return '"%s"' % s
-
-
-def copt(x, f):
-    return "None" if x is None else "(Some %s)" % f(x)
-
-
-def cdec(s):
-    t = Decimal(s).as_tuple()
-    m = int("".join(map(str, t.digits))) * (-1 if t.sign else 1)
-    return "(mkDec (%d) (%d))" % (m, t.exponent)
-
-
-def cbnd(b):
-    return {"L": lambda: "(Lower %s)" % cdec(b[1]), "U": lambda: "(Upper %s)" % cdec(b[2]), "B": lambda: "(Both %s %s)" % (cdec(b[1]), cdec(b[2]))}[b[0]]()
-
-
-def cvar(v):
-    return "(mkVar %s %s %s %s %d %s %s [%s])" % (cstr(v["name"]), copt(v["gloss"], cstr), copt(v["entry"], cstr), TYCOQ[TYPES[v["ty"]]], v["size"],
-                                                  copt(v["bounds"], cbnd), copt(v["phys"], cbnd), "; ".join(cdec(x) for x in v["default"]))
-
-
-def cdecl(d):
-    L = lambda l: "[" + "; ".join(cvar(v) for v in l) + "]"
-    out = d["output"] or dict(name="none", gloss=None, entry=None, ty="real", size=1, bounds=None, phys=None, default=[])
-    return "(mkDecl %s %s %s %s %s %s %s %s %s [%s])" % ("MaterialProperty" if d["kind"] == "MP" else "Behaviour", copt(d["unit"], cstr), cvar(out), L(d["inputs"]),
-                                                         L(d["mps"]), L(d["svs"]), L(d["asvs"]), L(d["esvs"]), L(d["params"]), "; ".join(HYP_COQ[h] for h in d["hyps"]))
-
-
-def cgloss(G):
-    return "[" + ";\n ".join("mkG %s %s %s %s" % (cstr(e["key"]), cstr(e["sys"]), copt(e["low"], cdec), copt(e["up"], cdec)) for e in G) + "]"
-
-
 TOK = re.compile(r'S\s+"([^"]*)"|K\s+\(?(-?\d+)\)?|N\s+\(?(-?\d+)\)?\s+\(?(-?\d+)\)?')
 
 
-def parse_table(text):
+def tokens(text):
     toks = []
     for m in TOK.finditer(text):
         if m.group(1) is not None:
@@ -454,6 +230,11 @@ def parse_table(text):
             toks.append(("K", int(m.group(2))))
         else:
             toks.append(("N", float("%se%s" % (m.group(3), m.group(4)))))
+    return toks
+
+
+def parse_table(text):
+    toks = tokens(text)
     pos = [0]
 
     def nxt(kind):
@@ -469,8 +250,8 @@ def parse_table(text):
 
     def meta():
         m = dict(ext=nxt("S"), code=nxt("K"), size=nxt("K"))
-        m["bounds"] = bnd()
-        m["phys"] = bnd()
+        m["bounds"] = collapse([bnd() for _ in range(nxt("K"))] or [None])
+        m["phys"] = collapse([bnd() for _ in range(nxt("K"))] or [None])
         m["default"] = [nxt("N") for _ in range(nxt("K"))]
         return m
 
@@ -500,6 +281,8 @@ def query_cmd(d, exp, as_found=False):
         args.append("--modelling-hypothesis=" + exp["hyps"][0])
     allv = exp["args"] + exp["mps"] + exp["isvs"] + exp["esvs"] + exp["params"]
     for m in allv:
+        if isinstance(m["bounds"], tuple) and m["bounds"][0] == "MIXED":
+            continue   # per-element bounds: mfront-query has no per-element query
         for kind, b in (("bounds", m["bounds"]), ("physical-bounds", m["phys"])):
             ask = bool(b) and (d["kind"] == "B" or kind == "physical-bounds" or bool(m["phys"]))
             if as_found and kind == "bounds":
@@ -542,7 +325,144 @@ def range_matches(txt, b):
     return lo != "*" and hi != "*" and close(lo, b[1]) and close(hi, b[2])
 
 
+
+
+# ----------------------------------------------------------------------------- parameters: scenarios on the probes
+NEWVALS = ["7.5", "0.125", "-2.5", "1234.5", "3.0517578125", "0.000244140625", "41.25", "-0.75", "9.0000001", "2.000000001"]
+
+
+PREF = {"epsilon": "1e-10", "theta": "0.625", "iterMax": "17", "YoungModulus": "210e9", "PoissonRatio": "0.25"}
+
+
+def recompilable(d, name):
+    """can the default value of that parameter be edited in the source file (user parameters, @Epsilon / @Theta / @IterMax, constant
+    elastic properties of the brick)"""
+    base = pkey(name)[0]
+    s = d.get("dsl")
+    if any(ext_name(v) == base for v in d["params"]):
+        return True
+    return bool(s) and ((base == "epsilon" and s["eps"]) or (base == "theta" and s["theta"]) or (base == "iterMax" and s["itermax"])
+                        or (base in ("YoungModulus", "PoissonRatio") and isinstance(s["brick"], tuple)))
+
+
+def pkey(name):
+    m = re.fullmatch(r"(.*)\[(\d+)\]", name)
+    return (m.group(1), int(m.group(2))) if m else (name, None)
+
+
+def ckey(k):
+    return "(%s, %s)" % (cstr(k[0]), "None" if k[1] is None else "(Some %d%%nat)" % k[1])
+
+
+def chyp(h):
+    return "None" if h is None else "(Some %s)" % HYP_COQ[h]
+
+
+def param_slots(d, h):
+    """(external name with index, kind, default string, variable) of every parameter element visible under h, declaration order"""
+    out = []
+    for v in elaborate(d)["params"]:
+        if h is None or visible(v, h):
+            for i in range(v["size"]):
+                out.append((ext_name(v) if v["size"] == 1 else "%s[%d]" % (ext_name(v), i), {"int": "I", "ushort": "U"}.get(v["ty"], "R"), v["default"][i], v))
+    return out
+
+
+def scenarios(d, rng):
+    """list of (tag, files, steps); a step is ("set", h, kind, name, value, via) or ("call", h).  Every hypothesis is called once before
+    the first set, so that every parameters singleton exists (and has read its file) when the values are changed."""
+    hs = [None] if d["kind"] == "MP" else [h for h in HYPS if h in d["hyps"]]
+    calls = [("call", h) for h in hs]
+    nv = iter(NEWVALS * 4)
+    sc = [("defaults", {}, list(calls))]
+    # every parameter element read by the code, set through every hypothesis in turn
+    steps = list(calls)
+    for k, h in enumerate(hs):
+        for name, kind, _, v in param_slots(d, h):
+            if name in d["probe"]["reads"] and (k == 0 or v["hyps"]) and recompilable(d, name):
+                steps.append(("set", h, kind, name, PREF.get(name) or next(nv), None))
+    sc.append(("set-all", {}, steps + calls))
+    # a shared parameter set through the LAST hypothesis is seen by all; names that must be refused
+    h0, h1 = hs[0], hs[-1]
+    shared = [s for s in param_slots(d, h1) if not s[3]["hyps"] and s[0] in d["probe"]["reads"]]
+    steps = list(calls)
+    if shared:
+        steps.append(("set", h1, shared[0][1], shared[0][0], "0.0625" if shared[0][1] == "R" else "33", None))
+    steps += [("set", h0, "R", "NoSuchParameter", "1.5", None), ("set", h0, "U", (shared or param_slots(d, h0))[0][0], "3", None) if (shared or param_slots(d, h0))[0][1] == "R"
+              else ("set", h0, "R", shared[0][0], "3", None)]
+    arr = [s for s in param_slots(d, h0) if s[3]["size"] > 1]
+    if arr:
+        base = ext_name(arr[0][3])
+        steps += [("set", h0, "R", base, "1.5", None), ("set", h0, "R", "%s[%d]" % (base, arr[0][3]["size"]), "1.5", None)]
+    only = [s for s in param_slots(d, h1) if s[3]["hyps"] and not any(x[0] == s[0] for x in param_slots(d, h0))]
+    if only:
+        steps += [("set", h0, "R", only[0][0], "1.5", None), ("set", h1, "R", only[0][0], "0.375", None)]
+    if d["kind"] == "MP":
+        al = [s for s in param_slots(d, None) if s[3]["name"] != s[0]]
+        if al:
+            steps.append(("set", None, "R", al[0][3]["name"], "11.5", None))    # the variable name is accepted too
+    sc.append(("refusals", {}, steps + calls))
+    # parameter files in the current directory
+    files = {}
+    cls = d["name"]
+    sh = [s for s in param_slots(d, h0) if not s[3]["hyps"] and s[0] in d["probe"]["reads"] and s[1] == "R"]
+    files["%s-parameters.txt" % cls] = [(None, s[0], next(nv)) for s in sh[::2]] or []
+    if d["kind"] == "MP":
+        al = [s for s in param_slots(d, None) if s[3]["name"] != s[0]]
+        files["%s-parameters.txt" % cls] = [(None, s[0], next(nv)) for s in sh[1:2]] + [(None, al[0][3]["name"], "6.25")] if al else files["%s-parameters.txt" % cls]
+    else:
+        for h in hs:
+            own = [s for s in param_slots(d, h) if s[3]["hyps"] and s[0] in d["probe"]["reads"]]
+            if own:
+                files["%s%s-parameters.txt" % (cls, h)] = [(h, own[0][0], next(nv))]
+    steps = list(calls)
+    if sh:
+        steps.append(("set", h1, "R", sh[-1][0], next(nv), None))
+    sc.append(("parameter-files", files, steps + calls))
+    return sc
+
+
+def recompiled(d, sets):
+    """the declaration in which the default values were edited as the successful `set` steps do"""
+    r = copy.deepcopy(d)
+    s = r.get("dsl")
+    for _, h, kind, name, val, _ in sets:
+        base, idx = pkey(name)
+        done = False
+        for v in r["params"]:
+            if ext_name(v) == base and (h is None or visible(v, h)) and (idx is None) == (v["size"] == 1):
+                v["default"][idx or 0] = val
+                done = True
+                break
+        if not done and s:
+            if base == "epsilon" and s["eps"]:
+                s["eps"] = val
+            elif base == "theta" and s["theta"]:
+                s["theta"] = val
+            elif base == "iterMax" and s["itermax"]:
+                s["itermax"] = val
+            elif base in ("YoungModulus", "PoissonRatio") and isinstance(s["brick"], tuple):
+                s["brick"] = ("const", val if base == "YoungModulus" else s["brick"][1], val if base == "PoissonRatio" else s["brick"][2])
+            else:
+                return None
+        elif not done:
+            return None
+    return r
+
+
 # ----------------------------------------------------------------------------- main
+HOW = "mfront --interface=generic on the file, compile src/*.cxx into a shared library, props/C45/driver.cxx query (header of the file)"
+
+
+def proof_files(variant):
+    files = ["C45Model.v", "C45Spec.v", "C45Proofs.v", "Properties_C45_common.v"]
+    for flag, stem in zip(variant, ("D1", "D2", "D3", "E1", "E2")):
+        files.append("Properties_C45_%s%s.v" % (stem, "_finding" if flag else ""))
+    if not any(variant):
+        files.append("Properties_C45_faithful.v")
+    return files
+
+
 def main(c):
     c.repo_build(["mfront", "mfront-query"])
     mfront = mfront_exe(c, REPO_BUILD)
@@ -555,39 +475,89 @@ def main(c):
         return
     nb = [e for e in G if e["low"] is not None or e["up"] is not None]
     c.log("glossary dumped: %d entries x unit systems, %d with physical bounds (%d two-sided)" % (len(G), len(nb), len([e for e in nb if e["low"] is not None and e["up"] is not None])))
+    # ------------------------------------------------ the Coq development is compiled while mfront and g++ work: the theorem files are guessed from
+    # known_findings.json (a `_finding` file for a key listed as `finding`) and chosen again at the end from what was observed
+    import json
+    try:
+        known = {e["key"] for e in json.load(open(os.path.join(c.dir, "known_findings.json"))) if e.get("status") == "finding"}
+    except Exception:
+        known = set()
+    guess = tuple(k in known for k in (K_D1, K_D2, K_D3, K_E1, K_E2))
+    POS = proof_files(guess)
+    coqres = {}
+    th = threading.Thread(target=lambda: coqres.update(res=c.coq(POS, timeout=900)))
+    th.start()
+    try:
+        body(c, mfront, mquery, exe, G, th, coqres, POS)
+    finally:
+        th.join()
+
+
+def body(c, mfront, mquery, exe, G, th, coqres, POS):
     # ------------------------------------------------ declarations -> .mfront -> mfront -> shared libraries
-    decls = archetypes(G)
+    decls = archetypes(G) + implicit_archetypes() + probes()
     n = c.pick(14, 60)
+    k = 0
     while len(decls) < n:
-        decls.append(gen_decl(c.rng, G, len(decls)))
+        decls.append(gen_decl(c.rng, G, k))
+        k += 1
     for i, d in enumerate(decls):
         d["name"] = "C45%s%d" % ("M" if d["kind"] == "MP" else "B", i)
+    # the probes: scenarios, and the same declaration with the default values edited as the `set-all` scenario sets them
+    for d in [x for x in decls if x.get("probe")]:
+        d["scenarios"] = scenarios(d, c.rng)
+        if d.get("dsl") and c.quick():
+            continue    # the Implicit probe is recompiled in the thorough tier only
+        sets = [s for s in d["scenarios"][1][2] if s[0] == "set"]
+        r = recompiled(d, sets)
+        if r is not None:
+            r["name"] = d["name"] + "R"
+            r.pop("scenarios", None)
+            r["recompiled_from"] = d["name"]
+            d["recompiled"] = r
+            decls.append(r)
     gdir = os.path.join(c.work, "gen")
     os.makedirs(gdir, exist_ok=True)
     qanswers = {}
-    with MFrontSemaphore() as sem:
-        for d in decls:
-            open(os.path.join(gdir, d["name"] + ".mfront"), "w").write(mfront_text(d))
-            rc, out, err = c.run([mfront, "--interface=generic", d["name"] + ".mfront"], cwd=gdir, timeout=120)
-            sem.runs += 1
-            if rc != 0:
-                c.report("mfront:" + d["name"] + ":" + str(c.seed), "mfront rejects a generated declaration: " + (out + err)[-500:],
-                         {"mfront": mfront_text(d), "output": (out + err)[-2000:]}, True)
-                d["failed"] = True
-                continue
-            qa, ql = query_cmd(d, expected(G, d))
-            rc, out, err = c.run([mquery] + qa + [d["name"] + ".mfront"], cwd=gdir, timeout=120)
-            # a warning of the completion (declared physical bounds wider than the glossary's) is logged on stdout without a newline
-            qanswers[d["name"]] = (rc, [l for l in LOGMSG.sub("", out).splitlines() if l.strip()], err, ql, LOGMSG.search(out) is not None)
+    for d in decls:
+        d["exp"] = {None: expected(G, d)} if d["kind"] == "MP" else {h: expected(G, d, h) for h in HYPS if h in d["hyps"]}
+        d["exp0"] = list(d["exp"].values())[0]
+        open(os.path.join(gdir, d["name"] + ".mfront"), "w").write(mfront_text(d))
+        rc, out, err = c.run([mfront, "--interface=generic", d["name"] + ".mfront"], cwd=gdir, timeout=120)
+        if rc != 0:
+            c.report("mfront:" + d["name"] + ":" + str(c.seed), "mfront rejects a generated declaration: " + (out + err)[-500:],
+                     {"mfront": mfront_text(d), "output": (out + err)[-2000:]}, True)
+            d["failed"] = True
+            continue
+        qa, ql = query_cmd(d, d["exp0"])
+        rc, out, err = c.run([mquery] + qa + [d["name"] + ".mfront"], cwd=gdir, timeout=120)
+        # a warning of the completion (declared physical bounds wider than the glossary's) is logged on stdout without a newline
+        qanswers[d["name"]] = (rc, [l for l in LOGMSG.sub("", out).splitlines() if l.strip()], err, ql, LOGMSG.search(out) is not None)
     decls = [d for d in decls if not d.get("failed")]
     c.log("mfront and mfront-query ran on %d declarations" % len(decls))
+    # ------------------------------------------------ declarations mfront must refuse: mfront only
+    inv = invalid_cases(c.rng, G, c.pick(90, 400))
+    idir = os.path.join(c.work, "inv")
+    for i, (tag, d) in enumerate(inv):
+        d["name"] = "C45I%d" % i
+        wd = os.path.join(idir, str(i))
+        os.makedirs(wd, exist_ok=True)
+        open(os.path.join(wd, d["name"] + ".mfront"), "w").write(mfront_text(d))
+
+    def run_inv(i):
+        rc, out, err = c.run([mfront, "--interface=generic", inv[i][1]["name"] + ".mfront"], cwd=os.path.join(idir, str(i)), timeout=120)
+        return rc, (out + err)
+    with ThreadPoolExecutor(max_workers=max(1, JOBS - (1 if th.is_alive() else 0))) as ex:     # coqc runs in the background
+        inv_rc = list(ex.map(run_inv, range(len(inv))))
+    c.log("mfront ran on %d declarations to be judged by `accepts` (%d accepted)" % (len(inv), len([r for r in inv_rc if r[0] == 0])))
+    # ------------------------------------------------ compilation
     inc = ["-I" + os.path.join(gdir, "include")]
     fl = c.cxx_flags() + ["-O0", "-fPIC"] + inc
     jobs = []
     for d in decls:
         srcs = [d["name"] + "-generic.cxx"] + ([d["name"] + ".cxx"] if d["kind"] == "B" else [])
         jobs += [(d, os.path.join(gdir, "src", s)) for s in srcs]
-    with ThreadPoolExecutor(max_workers=4) as ex:
+    with ThreadPoolExecutor(max_workers=max(1, JOBS - (1 if th.is_alive() else 0))) as ex:
         objs = list(ex.map(lambda j: c._obj(j[1], fl), jobs))
     ldirs = repo_lib_dirs()
     for d in decls:
@@ -602,8 +572,7 @@ def main(c):
     # ------------------------------------------------ ExternalLibraryManager queries
     lines, tags = [], []
     for di, d in enumerate(decls):
-        d["exp"] = expected(G, d)
-        for tag, line in queries(d, d["exp"]):
+        for tag, line in queries(d):
             tags.append((di, tag))
             lines.append("%d %s" % (len(lines), line))
     rc, out, err = c.run([exe, "query"], input="\n".join(lines) + "\n")
@@ -618,58 +587,119 @@ def main(c):
     c.log("%d queries answered by ExternalLibraryManager" % len(lines))
     # ------------------------------------------------ (1) independent statement vs observation
     seen = {K_D1: [], K_D2: [], K_D3: []}
-    nviol = 0
     for di, d in enumerate(decls):
-        exp = d["exp"]
-        d["dvars"] = dict(args=d["inputs"], mps=d["mps"], isvs=d["svs"] + d["asvs"], esvs=d["esvs"], params=d["params"] + (BUILTIN if d["kind"] == "B" else []))
         try:
-            d["obs"] = observe(d, exp, answers[di])
+            d["obs"] = observe(d, answers[di])
         except LookupError as e:
-            nviol += 1
             c.report("elm:%s:%d" % (d["name"], c.seed), "ExternalLibraryManager cannot read the metadata of the library generated from\n%s\n%s" % (mfront_text(d), e),
                      {"mfront": mfront_text(d), "error": str(e)}, True)
-            d["obs"] = []
+            d["obs"] = {}
             continue
         d["unexplained"] = []
-        for o in d["obs"]:
-            if o["epts"] != [d["name"]] and sorted(o["epts"]) != sorted(d["name"] + "_" + h for h in exp["hyps"]):
-                d["unexplained"].append(("epts", -1, "entry points", [d["name"]], o["epts"]))
+        for h, o in d["obs"].items():
+            exp = d["exp"][h]
+            if o["epts"] != [d["name"]] and sorted(o["epts"]) != sorted(d["name"] + "_" + x for x in exp["hyps"]):
+                d["unexplained"].append(("epts", -1, "entry points", [d["name"]], o["epts"], h))
             for m in diff(exp, o):
-                k = classify(d, d["dvars"], m)
-                if k:
-                    seen[k].append((d, o, m))
+                kf = classify(d, exp, m)
+                if kf:
+                    seen[kf].append((d, h, m))
                 else:
-                    d["unexplained"].append(m + (o["hyp"],))
+                    d["unexplained"].append(m + (h,))
+        exp = d["exp0"]
         nvars = sum(len(exp[k]) for k in ("args", "mps", "isvs", "esvs", "params"))
-        inherit = any(v["gloss"] and not v["phys"] and m["phys"] for k in ("args", "mps", "isvs", "esvs", "params") for v, m in zip(d["dvars"][k], exp[k]))
-        c.count(max(1, len(d["obs"])), ("decl", mfront_text(d)), inherit or any(m["size"] > 1 for k in ("mps", "isvs", "esvs", "params") for m in exp[k]))
+        allm = [m for e in d["exp"].values() for k in ("args", "mps", "isvs", "esvs", "params") for m in e[k]]
+        nontrivial = any((m["var"]["gloss"] and not m["var"]["phys"] and m["phys"]) or m["size"] > 1 or m["var"]["hyps"] for m in allm) or bool(d.get("dsl"))
+        c.count(max(1, len(d["obs"])), ("decl", mfront_text(d)), nontrivial)
         if di % 5 == 0:
-            c.sample({"declaration": mfront_text(d), "expected": {k: exp[k] for k in ("output", "hyps", "args", "mps", "isvs", "esvs", "params")},
-                      "observed": [{k: o[k] for k in ("hyp", "output", "hyps", "args", "mps", "isvs", "esvs", "params")} for o in d["obs"][:1]], "variables": nvars})
+            strip = lambda l: [{k: v for k, v in m.items() if k != "var"} for m in l]
+            c.sample({"declaration": mfront_text(d), "hypothesis": list(d["exp"])[0],
+                      "expected": {k: (strip(exp[k]) if isinstance(exp[k], list) and exp[k] and isinstance(exp[k][0], dict) else exp[k])
+                                   for k in ("output", "hyps", "args", "mps", "isvs", "esvs", "params")},
+                      "observed": [{k: o[k] for k in ("hyp", "output", "hyps", "args", "mps", "isvs", "esvs", "params")} for o in list(d["obs"].values())[:1]],
+                      "variables": nvars})
         for m in d["unexplained"][:3]:
-            nviol += 1
-            name, i, fld, e, o = m[:5]
-            who = "%s[%d] = %s" % (name, i, exp[name][i]["ext"]) if i >= 0 and name != "temperature" else name
+            name, i, fld, e, o, h = m
+            who = "%s[%d] = %s" % (name, i, d["exp"][h][name][i]["ext"]) if i >= 0 and name != "temperature" else name
             c.report("meta:%s:%s:%s:%d" % (d["name"], who, fld, c.seed),
                      "exported metadata differs from the declaration: %s, %s: declared %r, read back through ExternalLibraryManager %r%s\n%s" % (
-                         who, fld, e, o, (" (hypothesis %s)" % m[5]) if len(m) > 5 and m[5] else "", mfront_text(d)),
+                         who, fld, e, o, (" (hypothesis %s)" % h) if h else "", mfront_text(d)),
                      {"mfront": mfront_text(d), "container": name, "index": i, "field": fld, "declared": repr(e), "read_back": repr(o), "library": d["lib"],
-                      "how": "mfront --interface=generic on the file, compile src/*.cxx into a shared library, props/C45/driver.cxx query (header of the file)"}, True)
+                      "hypothesis": h, "how": HOW}, True)
     texts = {K_D1: "a material-property input with physical bounds (declared or inherited from the glossary) and no @Bounds: the physical bounds are not exported",
              K_D2: "bounds / physical bounds of an array variable cannot be read back (symbols written as <f>_<name>_mfront_index_<i>__LowerBound, two underscores, "
                    "ExternalLibraryManager looks for <f>_<name>_mfront_index_<i>_LowerBound)",
              K_D3: "a state variable attached to a glossary entry with physical bounds (unit system declared, no @PhysicalBounds): the inherited bounds are not exported"}
-    for k, l in seen.items():
+    for kf, l in seen.items():
         if l:
-            d, o, m = l[0]
+            d, h, m = l[0]
             name, i, fld, e, ob = m
-            c.report(k, "%s.\n%s[%d] = %s, %s: declared/inherited %r, read back through ExternalLibraryManager %r (%d such variables in this run)\n%s" % (
-                texts[k], name, i, d["exp"][name][i]["ext"], fld, e, ob, len(l), mfront_text(d)),
-                {"mfront": mfront_text(d), "container": name, "index": i, "field": fld, "declared": repr(e), "read_back": repr(ob), "library": d["lib"],
-                 "how": "mfront --interface=generic on the file, compile src/*.cxx into a shared library, props/C45/driver.cxx query (header of the file)"}, True)
-    variant = (bool(seen[K_D1]), bool(seen[K_D2]), bool(seen[K_D3]))
-    c.log("independent statement compared; findings observed (D1, D2, D3) = %s" % (variant,))
-    # ------------------------------------------------ (2) mfront-query
+            c.report(kf, "%s.\n%s[%d] = %s, %s: declared/inherited %r, read back through ExternalLibraryManager %r (%d such variables in this run)\n%s" % (
+                texts[kf], name, i, d["exp"][h][name][i]["ext"], fld, e, ob, len(l), mfront_text(d)),
+                {"mfront": mfront_text(d), "container": name, "index": i, "field": fld, "declared": repr(e), "read_back": repr(ob), "library": d["lib"], "how": HOW}, True)
+    # ------------------------------------------------ (2) declarations to be refused: independent statement, findings E1 / E2
+    e_seen = {K_E1: [], K_E2: []}
+    for (tag, d), (rc, msg) in zip(inv, inv_rc):
+        a = accepts_py(G, d)
+        d["py"] = a
+        if a is None or a == (rc == 0):
+            continue
+        if not a and rc == 0 and accepts_py(G, d, off_by_one=True, mp_loose=True):
+            e_seen[K_E2 if d["kind"] == "MP" else K_E1].append((tag, d))
+            continue
+        c.report("accepts:%s:%s:%d" % (tag, d["name"], c.seed),
+                 "mfront %s a declaration that the rules of the front-end (as read from its sources) %s (%s)\n%s%s" % (
+                     "accepts" if rc == 0 else "refuses", "refuse" if rc == 0 else "accept", tag, mfront_text(d), "" if rc == 0 else msg[-400:]),
+                 {"mfront": mfront_text(d), "mfront_rc": rc, "output": msg[-1500:], "case": tag}, True)
+    etext = {K_E1: "`@Bounds x[n] in ...` on an array of n elements (valid indices 0..n-1) is accepted by mfront (VariableDescription::setBounds tests `i > arraySize`); the "
+                   "declaration is then silently dropped: no bounds symbol is exported and no check is generated",
+             K_E2: "a material property in which the entry / glossary name of a variable is the NAME of another variable is accepted by mfront "
+                   "(MaterialPropertyDescription::setEntryName / setGlossaryName only look at the other external names): two variables are exported under one name "
+                   "(inputs: bounds queries by name are ambiguous; parameters: <law>_<name>_ParameterDefaultValue is defined twice and the generated code does not compile)"}
+    for kf, l in e_seen.items():
+        if l:
+            tag, d = l[0]
+            c.report(kf, "%s.\nmfront --interface=generic accepts (exit status 0, %d such declarations in this run, first case `%s`):\n%s" % (etext[kf], len(l), tag, mfront_text(d)),
+                     {"mfront": mfront_text(d), "case": tag, "how": "mfront --interface=generic file.mfront; echo $?"}, True)
+    variant = (bool(seen[K_D1]), bool(seen[K_D2]), bool(seen[K_D3]), bool(e_seen[K_E1]), bool(e_seen[K_E2]))
+    c.log("independent statements compared; findings observed (D1, D2, D3, E1, E2) = %s" % (variant,))
+    # ------------------------------------------------ (3) parameters: setParameter / parameter files / recompiled defaults
+    byname = {d["name"]: d for d in decls}
+    ncalls = 0
+    for d in [x for x in decls if x.get("scenarios")]:
+        rdir = os.path.join(c.work, "run", d["name"])
+        for si, (tag, files, steps) in enumerate(d["scenarios"]):
+            wd = os.path.join(rdir, str(si))
+            os.makedirs(wd, exist_ok=True)
+            for fn, l in files.items():
+                open(os.path.join(wd, fn), "w").write("# written by props/C45/check.py\n" + "".join("%s %s\n" % (nme, val) for _, nme, val in l))
+            ql = []
+            for st in steps:
+                if st[0] == "call":
+                    ql.append("%d CALLMP %s %s - 1 %s" % (len(ql), d["lib"], d["name"], (2.0).hex()) if d["kind"] == "MP" else
+                              "%d CALLB %s %s %s %d" % (len(ql), d["lib"], d["name"], st[1], nisv(d, st[1])))
+                else:
+                    _, h, kind, nme, val, _ = st
+                    ql.append("%d SET%s %s %s %s %s %s" % (len(ql), kind, d["lib"], d["name"], h or "-", nme, float(val).hex() if kind == "R" else val))
+            rc, out, err = c.run([exe, "query"], input="\n".join(ql) + "\n", cwd=wd)
+            ol = [l.split()[1:] for l in out.splitlines()]
+            if rc != 0 or len(ol) != len(ql):
+                c.report("params:driver:%s:%s" % (d["name"], tag), "the driver failed on scenario %s (rc %d, %d answers for %d commands): %s\n%s" % (
+                    tag, rc, len(ol), len(ql), err[-400:], mfront_text(d)), {"mfront": mfront_text(d), "commands": ql, "stderr": err[-2000:]}, False)
+                ol = None
+            d.setdefault("runs", []).append(ol)
+            ncalls += len(ql)
+        r = d.get("recompiled")
+        if r and r["name"] in byname:
+            hs = [None] if d["kind"] == "MP" else [h for h in HYPS if h in d["hyps"]]
+            ql = [("%d CALLMP %s %s - 1 %s" % (i, r["lib"], r["name"], (2.0).hex()) if d["kind"] == "MP" else
+                   "%d CALLB %s %s %s %d" % (i, r["lib"], r["name"], h, nisv(r, h))) for i, h in enumerate(hs)]
+            wd = os.path.join(rdir, "recompiled")
+            os.makedirs(wd, exist_ok=True)
+            rc, out, err = c.run([exe, "query"], input="\n".join(ql) + "\n", cwd=wd)
+            d["rerun"] = [l.split()[1:] for l in out.splitlines()] if rc == 0 else None
+    c.log("%d parameter commands (setParameter / calls of the generated code) executed" % ncalls)
+    # ------------------------------------------------ (4) mfront-query
     nq = 0
     d4 = []
     nlog = 0
@@ -682,11 +712,10 @@ def main(c):
         else:
             nq += len(ql)
             bad = query_mismatch(ql, got)
-            if bad and d["kind"] == "MP" and query_mismatch(query_cmd(d, d["exp"], as_found=True)[1], got) is None:
+            if bad and d["kind"] == "MP" and query_mismatch(query_cmd(d, d["exp0"], as_found=True)[1], got) is None:
                 d4.append((d, bad))
                 continue
         if bad:
-            nviol += 1
             c.report("query:%s:%d" % (d["name"], c.seed), bad + "\n" + mfront_text(d), {"mfront": mfront_text(d), "queries": [w for w, _ in ql], "output": got}, True)
     if d4:
         d, bad = d4[0]
@@ -698,55 +727,242 @@ def main(c):
         c.notes.append("%d mfront-query outputs were prefixed by the warning of checkAndCompletePhysicalBoundsDeclaration, written to the log stream (stdout) without a "
                        "trailing newline, so that it is glued to the first answer (`... (-0.5 < 0)false`): stripped before the comparison" % nlog)
     c.log("%d mfront-query answers compared" % nq)
-    # ------------------------------------------------ (3) the Gallina model on the same declarations, same glossary
-    vr = "(mkVariant %s %s %s)" % tuple("true" if x else "false" for x in variant)
-    cases = ("From Coq Require Import String List ZArith.\nFrom C45 Require Import C45Model.\nImport ListNotations.\nLocal Open Scope string_scope.\nLocal Open Scope Z_scope.\n"
-             "Set Printing Width 100000.\nSet Printing Depth 1000000.\nDefinition G : glossary :=\n %s.\n" % cgloss(G))
-    for d in decls:
-        cases += "Eval vm_compute in (render (symbols %s G %s)).\n" % (vr, cdecl(d))
-    rc, mo, me = c.coq_eval(["C45Model.v"], cases)
-    parts = re.split(r"^\s*=\s", mo, flags=re.M)[1:]
-    if rc != 0 or len(parts) != len(decls):
-        c.report("model-eval", "the Gallina model could not be evaluated (%d results for %d declarations): %s" % (len(parts), len(decls), me[-600:]), {"stderr": me[-3000:]}, False)
-        return
-    nmodel = 0
-    for d, part in zip(decls, parts):
-        t = parse_table(part.split(": list tok")[0])
-        t["hyps"] = list(t["hyps"])
-        for o in d["obs"]:
-            md = diff(t, o)
-            if md and not d.get("unexplained"):
-                nmodel += 1
-                if nmodel <= 3:
-                    name, i, fld, e, ob = md[0]
-                    c.report("model:%s:%s:%d:%s:%d" % (d["name"], name, i, fld, c.seed),
-                             "the Gallina model (variant %s) and the generated library disagree on %s[%d] %s: model %r, library %r\n%s" % (variant, name, i, fld, e, ob, mfront_text(d)),
-                             {"mfront": mfront_text(d), "model": repr(t), "observed": repr(o)}, True)
-    c.log("model evaluated by vm_compute on %d declarations (variant %s): %d disagreements" % (len(decls), variant, nmodel))
+    # ------------------------------------------------ (5) the Gallina model on the same declarations, same glossary
+    th.join()
+    model_compare(c, G, decls, inv, inv_rc, variant)
     # ------------------------------------------------ proofs
-    files = ["C45Model.v", "C45Spec.v", "C45Proofs.v", "Properties_C45_common.v"]
-    for flag, stem in zip(variant, ("D1", "D2", "D3")):
-        files.append("Properties_C45_%s%s.v" % (stem, "_finding" if flag else ""))
-    if not any(variant):
-        files.append("Properties_C45_faithful.v")
+    res = coqres.get("res")
+    files = proof_files(variant)
+    if res is None or files != POS:
+        c.coverage["obligations"] = 0
+        c.coverage["discharged"] = 0
+        res = c.coq(files, timeout=900)
     c.notes.append("theorem files used: " + ", ".join(f for f in files if f.startswith("Properties")))
-    res = c.coq(files, timeout=600)
     if not res.ok:
         c.coq_failures(res)
     nmp = len([d for d in decls if d["kind"] == "MP"])
-    c.coverage["rule"] = ("%d declarations (4 archetypes + random): %d material properties (generic interface: output, 1..6 inputs, 0..2 parameters) and %d Default-DSL behaviours "
-                          "(generic interface: 0..3 material properties, state / auxiliary state / external state variables, parameters; scalars, Stensor, Tensor, TVector, "
-                          "arrays of size 2..3; 1..5 modelling hypotheses in random order); glossary names drawn from the glossary dumped from the real code (all entries with "
-                          "physical bounds), entry names, plain names; @UnitSystem SI or none; @Bounds / @PhysicalBounds lower / upper / two-sided with up to 10 significant "
-                          "digits; every query of ExternalLibraryManager for every variable (every array element) under every declared hypothesis; non-trivial = a bound is "
-                          "inherited from the glossary or an array variable is declared" % (len(decls), nmp, len(decls) - nmp))
+    nimp = len([d for d in decls if d.get("dsl")])
+    c.coverage["rule"] = ("%d declarations (4 archetypes + 2 Implicit-DSL archetypes + 2 parameter probes and their recompiled twins + random): %d material properties (generic "
+                          "interface: output, 1..6 inputs, 0..3 parameters) and %d behaviours (generic interface; %d with `@DSL Implicit`, with / without `@Brick StandardElasticity`, "
+                          "constant or material-property elastic coefficients, @Epsilon / @Theta / @IterMax; the others Default DSL: 0..4 material properties, state / "
+                          "auxiliary state / external state variables, parameters; scalars, Stensor, Tensor, TVector, arrays of size 2..3 with whole or per-element @Bounds; "
+                          "variables and parameters specialised to a subset of the hypotheses, one name with two default values; 1..5 modelling hypotheses in random order); "
+                          "glossary names drawn from the glossary dumped from the real code (all entries with physical bounds), entry names, plain names; @UnitSystem SI or none; "
+                          "@Bounds / @PhysicalBounds lower / upper / two-sided with up to 10 significant digits; every query of ExternalLibraryManager for every variable (every "
+                          "array element) under every declared hypothesis; parameters set through ExternalLibraryManager::setParameter (double and unsigned short overloads, every "
+                          "hypothesis), parameter files, refused names, and the generated code called; %d declarations judged by `accepts` (mfront run, no compilation); "
+                          "non-trivial = a bound is inherited from the glossary, an array or hypothesis-specialised variable is declared, or the DSL adds declarations" % (
+                              len(decls), nmp, len(decls) - nmp, nimp, len(inv)))
     c.coverage["declarations"] = len(decls)
     c.coverage["elm_queries"] = len(lines)
+    c.coverage["parameter_commands"] = ncalls
+    c.coverage["accepts_cases"] = len(inv)
     c.coverage["mfront_query_answers"] = nq
-    c.trusted("props/C45/driver.cxx (calls ExternalLibraryManager and the glossary API, prints the answers)",
-              "Python printers: declaration -> .mfront text and -> Gallina term; glossary dump -> Gallina list; parser of the tokens printed by Coq for `render (symbols ...)`",
+    c.trusted("props/C45/driver.cxx (calls ExternalLibraryManager and the glossary API, prints the answers; calls the generated behaviour on a zero state)",
+              "Python printers: declaration -> .mfront text and -> Gallina term; glossary dump -> Gallina list; parser of the tokens printed by Coq for `render`, `r_view`, `accepts`",
               "g++ -O0 -fPIC of the generated sources, linked into one shared library per declaration; behaviours link the TFEL libraries of /repo/_build (built by repo_build)",
               "decimal -> double: Python float() of the declared decimal is compared with the long double read back converted to double")
+
+
+def nisv(d, h):
+    """number of doubles of the internal state variables up to the end of the probe's output array"""
+    ssize = {"Tridimensional": 6}.get(h, 4)
+    e = elaborate(d)
+    n = 0
+    for v in e["svs"] + e["asvs"]:
+        if visible(v, h):
+            n += v["size"] * {"real": 1, "Stensor": ssize}[v["ty"]]
+    return n
+
+
+# ----------------------------------------------------------------------------- the Gallina functions on the same inputs
+class PyStore:
+    """independent Python statement of the run-time parameters: one member per parameter, shared by every hypothesis unless the
+    parameter was declared for some hypotheses only; material properties accept the variable name as well as the external name"""
+
+    def __init__(self, d):
+        self.mp = d["kind"] == "MP"
+        self.slots = [dict(owner=v["hyps"], name=ext_name(v), alias=v["name"] if self.mp else None, kind={"int": "I", "ushort": "U"}.get(v["ty"], "R"),
+                           vals=list(v["default"])) for v in elaborate(d)["params"]]
+
+    def set(self, h, kind, name, val):
+        base, idx = pkey(name)
+        for s in self.slots:
+            if (s["owner"] and h not in s["owner"]) or s["kind"] != kind:
+                continue
+            n = len(s["vals"])
+            if (s["name"] == base and ((idx is None and n == 1) or (idx is not None and n != 1 and idx < n))) or (s["alias"] == base and idx is None and n == 1):
+                s["vals"][idx or 0] = val
+                return True
+        return False
+
+    def view(self, h):
+        out = {}
+        for s in self.slots:
+            if not s["owner"] or h in s["owner"]:
+                for i, x in enumerate(s["vals"]):
+                    out[(s["name"], None if len(s["vals"]) == 1 else i)] = float(x)
+        return out
+
+
+def model_compare(c, G, decls, inv, inv_rc, variant):
+    KIND = {"R": "KReal", "I": "KInt", "U": "KUShort"}
+    cases = ("From Coq Require Import String List ZArith.\nFrom C45 Require Import C45Model.\nImport ListNotations.\nLocal Open Scope string_scope.\nLocal Open Scope Z_scope.\n"
+             "Set Printing Width 100000.\nSet Printing Depth 1000000.\nDefinition G : glossary :=\n %s.\nDefinition vr := %s.\n" % (cgloss(G), cvariant(variant)))
+    handlers = []    # one per Eval, in order
+    nmodel = [0]
+
+    def report_model(key, what, replay):
+        nmodel[0] += 1
+        if nmodel[0] <= 4:
+            c.report(key, what, replay, True)
+    for di, d in enumerate(decls):
+        cases += "Definition d%d := %s.\n" % (di, cdecl(d))
+        cases += "Eval vm_compute in (accepts vr G d%d).\n" % di
+
+        def h_acc(part, d=d):
+            if "true" not in part.split(":")[0]:
+                report_model("model:accepts:%s:%d" % (d["name"], c.seed), "mfront accepts a declaration that the Gallina `accepts` (variant %s) refuses\n%s" % (variant, mfront_text(d)),
+                             {"mfront": mfront_text(d), "model": part[:200]})
+        handlers.append(h_acc)
+        for h in d["exp"]:
+            cases += "Eval vm_compute in (render (%s)).\n" % ("symbols vr G d%d" % di if h is None else "symbols_at vr G d%d %s" % (di, HYP_COQ[h]))
+
+            def h_tab(part, d=d, h=h):
+                t = parse_table(part.split(": list tok")[0])
+                o = d.get("obs", {}).get(h)
+                if o is None or d.get("unexplained"):
+                    return
+                md = diff(t, o)
+                if md:
+                    name, i, fld, e, ob = md[0]
+                    report_model("model:%s:%s:%d:%s:%d" % (d["name"], name, i, fld, c.seed),
+                                 "the Gallina model (variant %s) and the generated library disagree on %s[%d] %s%s: model %r, library %r\n%s" % (
+                                     variant, name, i, fld, " (hypothesis %s)" % h if h else "", e, ob, mfront_text(d)),
+                                 {"mfront": mfront_text(d), "model": repr(t), "observed": repr(o), "hypothesis": h})
+            handlers.append(h_tab)
+    # declarations to be judged
+    for i, ((tag, d), (rc, msg)) in enumerate(zip(inv, inv_rc)):
+        if d["py"] is None:
+            continue
+        cases += "Eval vm_compute in (accepts vr G %s).\n" % cdecl(d)
+
+        def h_inv(part, d=d, rc=rc, tag=tag, msg=msg):
+            a = "true" in part.split(":")[0]
+            if a != (rc == 0):
+                report_model("model:accepts:%s:%s:%d" % (tag, d["name"], c.seed),
+                             "mfront %s a declaration (%s) that the Gallina `accepts` (variant %s) %s\n%s%s" % (
+                                 "accepts" if rc == 0 else "refuses", tag, variant, "accepts" if a else "refuses", mfront_text(d), "" if rc == 0 else msg[-300:]),
+                             {"mfront": mfront_text(d), "mfront_rc": rc, "case": tag})
+        handlers.append(h_inv)
+    # parameters
+    nsteps = [0]
+    for di, d in enumerate(decls):
+        if not d.get("scenarios") or not d.get("runs"):
+            continue
+        reads = d["probe"]["reads"]
+        cases += "Definition P%d := params_of d%d.\n" % (di, di)
+        for si, ((tag, files, steps), ol) in enumerate(zip(d["scenarios"], d["runs"])):
+            if ol is None:
+                continue
+            st = "st_%d_%d_" % (di, si)
+            cases += "Definition %s0 := store_of (is_mp d%d) P%d.\n" % (st, di, di)
+            k = 0
+            py = PyStore(d)
+            for fn, l in sorted(files.items(), key=lambda f: len(f[0])):     # the file of the class first
+                cl = "[" + "; ".join("(KReal, %s, %s)" % (ckey(pkey(nme)), cdec(val)) for _, nme, val in l) + "]"
+                hf = l[0][0] if l else None
+                cases += "Definition %s%d := match load_file %s%d %s %s with Some s => s | None => %s%d end.\n" % (st, k + 1, st, k, chyp(hf), cl, st, k)
+                k += 1
+                for h, nme, val in l:
+                    py.set(h if h else "-shared-", "R", nme, val)
+            for step, ans in zip(steps, ol):
+                nsteps[0] += 1
+                if step[0] == "set":
+                    _, h, kind, nme, val, _ = step
+                    call = "set_param %s%d %s %s %s %s" % (st, k, chyp(h), KIND[kind], ckey(pkey(nme)), cdec(val))
+                    cases += "Eval vm_compute in (match %s with Some _ => true | None => false end).\n" % call
+                    cases += "Definition %s%d := match %s with Some s => s | None => %s%d end.\n" % (st, k + 1, call, st, k)
+                    k += 1
+                    okpy = py.set(h, kind, nme, val)
+
+                    def h_set(part, d=d, step=step, ans=ans, okpy=okpy, tag=tag):
+                        a = "true" in part.split(":")[0]
+                        ok = bool(ans) and ans[0] == "OK"
+                        if a != ok or okpy != ok:
+                            report_model("params:set:%s:%s:%s:%s" % (d["name"], tag, step[1], step[3]),
+                                         "ExternalLibraryManager::setParameter(%s, %r, %s%s) %s; the Gallina `set_param` %s, the Python statement %s\n%s" % (
+                                             step[1] or "-", step[3], step[4], {"R": "", "U": " as unsigned short", "I": " as int"}[step[2]],
+                                             "succeeds" if ok else "fails (%s)" % (unhx(ans[1]) if ans and len(ans) > 1 else "?")[:160],
+                                             "succeeds" if a else "fails", "succeeds" if okpy else "fails", mfront_text(d)),
+                                         {"mfront": mfront_text(d), "scenario": tag, "step": repr(step), "library": d["lib"]})
+                    handlers.append(h_set)
+                else:
+                    h = step[1]
+                    cases += "Eval vm_compute in (r_view (view %s%d %s)).\n" % (st, k, chyp(h))
+                    pv = py.view(h if h else "-shared-")
+
+                    def h_call(part, d=d, h=h, ans=ans, pv=pv, tag=tag, reads=reads):
+                        toks = tokens(part.split(": list tok")[0])
+                        view = {}
+                        for i in range(1, len(toks) - 2, 4):
+                            view[(toks[i][1], None if toks[i + 1][1] < 0 else toks[i + 1][1])] = toks[i + 3][1]
+                        want_m = [view.get(pkey(r)) for r in reads]
+                        want_p = [pv.get(pkey(r)) for r in reads]
+                        if d["kind"] == "MP":
+                            got = [float.fromhex(ans[1].split(":")[0])] if ans and ans[0] == "0" else None
+                            f = lambda w: None if None in w else [(w[0] + 3 * w[1]) * 2.0 + w[2]]
+                            want_m, want_p = f(want_m), f(want_p)
+                            same = lambda a, b: a is not None and b is not None and all(abs(x - y) <= 4e-16 * max(abs(x), abs(y)) for x, y in zip(a, b))
+                        else:
+                            n = len(reads)
+                            got = [float.fromhex(x.split(":")[0]) for x in ans[1:]][-n:] if ans and ans[0] == "1" and len(ans) > n else None
+                            same = lambda a, b: a is not None and b is not None and a == b
+                        d.setdefault("outputs", {})[(tag, h, len(d.get("outputs", {})))] = got
+                        if not same(got, want_m) or not same(got, want_p):
+                            report_model("params:call:%s:%s:%s" % (d["name"], tag, h),
+                                         "scenario `%s`: the generated code%s computes with the parameters %r = %r; the Gallina `view` gives %r, the Python statement %r\n"
+                                         "(driver answer %r)\n%s" % (tag, " under " + h if h else "", reads, got, want_m, want_p, ans[:12] if ans else ans, mfront_text(d)),
+                                         {"mfront": mfront_text(d), "scenario": tag, "steps": repr(d["scenarios"]), "library": d["lib"]})
+                    handlers.append(h_call)
+    rc, mo, me = c.coq_eval(["C45Model.v"], cases)
+    parts = re.split(r"^\s*=\s", mo, flags=re.M)[1:]
+    if rc != 0 or len(parts) != len(handlers):
+        c.report("model-eval", "the Gallina model could not be evaluated (%d results for %d evaluations): %s" % (len(parts), len(handlers), me[-600:]), {"stderr": me[-3000:]}, False)
+        return
+    for hd, part in zip(handlers, parts):
+        hd(part)
+    # recompiling with those defaults: bit for bit
+    nrec = 0
+    for d in decls:
+        if d.get("rerun") is None or not d.get("outputs"):
+            continue
+        hs = [None] if d["kind"] == "MP" else [h for h in HYPS if h in d["hyps"]]
+        final = {}
+        for (tag, h, _), got in d["outputs"].items():
+            if tag == "set-all":
+                final[h] = got      # the last call of the scenario under h
+        eps_set = any(s[0] == "set" and s[3] == "epsilon" for s in d["scenarios"][1][2])
+        for h, ans in zip(hs, d["rerun"]):
+            n = len(d["probe"]["reads"])
+            if d["kind"] == "MP":
+                got = [float.fromhex(ans[1].split(":")[0])] if ans and ans[0] == "0" else None
+                a, b = final.get(h), got
+            else:
+                got = [float.fromhex(x.split(":")[0]) for x in ans[1:]][-n:] if ans and ans[0] == "1" else None
+                keep = [i for i, r in enumerate(d["probe"]["reads"]) if not (eps_set and r == "numerical_jacobian_epsilon")]
+                a = [final[h][i] for i in keep] if final.get(h) else None
+                b = [got[i] for i in keep] if got else None
+            nrec += 1
+            if a is None or b is None or [x.hex() for x in a] != [x.hex() for x in b]:
+                c.report("params:recompiled:%s:%s" % (d["name"], h),
+                         "changing the parameters through setParameter does not give the results of the library recompiled with those defaults%s: after setParameter %r, "
+                         "recompiled %r (parameters read: %r)\n--- original\n%s--- recompiled\n%s" % (
+                             " under " + h if h else "", a, b, d["probe"]["reads"], mfront_text(d), mfront_text(d["recompiled"])),
+                         {"mfront": mfront_text(d), "recompiled": mfront_text(d["recompiled"]), "steps": repr(d["scenarios"][1][2])}, True)
+    c.coverage["recompiled_comparisons"] = nrec
+    c.log("model evaluated by vm_compute: %d evaluations (tables under every hypothesis, `accepts` on %d + %d declarations, %d parameter steps), variant %s: %d disagreements; "
+          "%d bit-for-bit comparisons with recompiled libraries" % (len(handlers), len(decls), len(inv), nsteps[0], variant, nmodel[0], nrec))
 
 
 guarded_main("C45", main, level="proof")
